@@ -415,6 +415,49 @@ where
     }
 }
 
+/// `map` / `then_map` over astronomically long vectors of zero-sized inputs whose k-th element fails: the components run
+/// in order and stop at the first failure - k + 1 applications, the error comes back, nothing is allocated for the
+/// elements that are never reached, no panic.  Model-free.
+fn astronomic_map_inputs(rep: &mut Report) {
+    use std::sync::atomic::{AtomicUsize, Ordering};
+    struct FailAt { k: usize, calls: std::sync::Arc<AtomicUsize> }
+    impl Composable for FailAt {}
+    impl Operator<()> for FailAt {
+        type Output = u64;
+        type Error = ProbeErr;
+        fn apply<R: rand::Rng + ?Sized>(&self, _x: (), rng: &mut R) -> Result<u64, ProbeErr> {
+            let c = self.calls.fetch_add(1, Ordering::SeqCst);
+            if c == self.k { Err(ProbeErr { id: 9, code: 1 }) } else { Ok(rng.next_u64()) }
+        }
+    }
+    for n in [usize::MAX, usize::MAX / 2 + 1, (isize::MAX as usize) / 8 + 1, 1usize << 40] {
+        for k in [0usize, 3] {
+            for form in 0..2 {
+                let calls = std::sync::Arc::new(AtomicUsize::new(0));
+                let mut rng = SplitMix::new(n as u64 ^ k as u64);
+                let input: Vec<()> = vec![(); n];
+                let c2 = calls.clone();
+                let res = std::panic::catch_unwind(std::panic::AssertUnwindSafe(|| {
+                    if form == 0 { Identity.map(FailAt { k, calls: c2 }).apply(input, &mut rng).map(|v| v.len()).map_err(|e| e.to_string()) }
+                    else { Identity.then_map(FailAt { k, calls: c2 }).apply(input, &mut rng).map(|v| v.len()).map_err(|e| e.to_string()) }
+                }));
+                rep.case(&format!("astronomic map input n={n} k={k} form={form}"), true);
+                rep.hit("map over an astronomically long vector (oracle only)");
+                let made = calls.load(Ordering::SeqCst);
+                let bad = match res {
+                    Err(_) => Some("panicked".to_string()),
+                    Ok(Ok(len)) => Some(format!("succeeded with {len} outputs")),
+                    Ok(Err(_)) => if made != k + 1 { Some(format!("the component was applied {made} times")) } else { None },
+                };
+                if let Some(b) = bad {
+                    rep.violate(json!({"case": format!("{} over a vector of {n} zero-sized inputs whose element {k} fails", if form == 0 { "map" } else { "then_map" }), "real": b,
+                        "what": format!("the components run in order and stop at the first failure: {} applications, then its error", k + 1)}));
+                }
+            }
+        }
+    }
+}
+
 pub fn run(cfg: &Cfg) -> Report {
     let selftest: u8 = std::env::var("UEC_SELFTEST").ok().and_then(|s| s.parse().ok()).unwrap_or(0);
     let shapes = if (5..=8).contains(&selftest) { mutant_shapes(selftest) } else { shapes() };
@@ -428,6 +471,7 @@ pub fn run(cfg: &Cfg) -> Report {
         let mut ctx = Ctx { d, r, gen: SplitMix::derive(seed, i), seed, case: i, selftest };
         f(&mut ctx);
     });
+    if selftest == 0 { astronomic_map_inputs(&mut rep); }
     rep.exhaustive = true;
     rep.notes.push(format!("{n_shapes} shapes x {seeds_per_shape} seeded inputs; for each, every component call as failure position x {{before, after}} its draws (exhaustive) + the failure-free run"));
     rep
